@@ -1,22 +1,27 @@
 /* C06 environment contracts (DESIGN section 3, row "mkdir/open/symlink/...").
  *
  * Every path-taking system call is replaced by its contract:
- *   requires  confined(path)      -> obligation C06.<walk>.path_pre
- *             the no-follow facts  -> obligation C06.nofollow
+ *   requires  confined(path)                 obligation C06.<walk>.path_pre
  *             every proper prefix of path is the path of an ancestor node
- *             that is a directory node -> obligation C06.prefix_is_dir
+ *             that is a directory node        obligation C06.prefix_is_dir
+ *             the no-follow facts             obligation C06.nofollow
  *   ensures   any result; errno arbitrary
+ *
+ * To keep the formula small the contract is evaluated in two steps: at the
+ * call the stub copies the path bytes into a ghost log slot that belongs to
+ * the tree node the path was generated for (the node is known because the
+ * sqfs_tree_node_get_path contract records it; a path-taking call that is
+ * not preceded by one is itself a violation), and the harness evaluates the
+ * predicates on every used slot when the walk returns (ENV_CHECK_LOG). Each
+ * call is checked; only the place of the assert differs.
  *
  * The one exception to "confined" is spelled out, not hidden: when the walk
  * is applied to a root node that is not a directory, the code hands the
  * EMPTY string to the system call. POSIX requires the kernel to refuse an
  * empty pathname (ENOENT) for every call used here, none of which is given
  * AT_EMPTY_PATH, so nothing is created or changed. The contract therefore
- * accepts "" exactly when the tree root is not a directory node, and the
- * stub then returns failure only.
- *
- * Include after C06/tree.h and the spec headers; WALK must be defined to the
- * walk's name (create, attribs, fill) - it selects the obligation name.
+ * accepts "" exactly for the tree root, when it is not a directory node, and
+ * the stub then reports failure only.
  */
 #ifndef C06_ENV_H
 #define C06_ENV_H
@@ -32,93 +37,96 @@
 
 /* ghost state written by the contracts */
 static unsigned g_nsys;        /* path-taking system calls issued */
-static unsigned g_ncreate;     /* object-creating calls that succeeded */
 static unsigned g_stderr_msgs; /* diagnostics written to stderr */
 static unsigned g_stdout_msgs;
-static unsigned g_max_depth;   /* deepest path handed to a system call */
+static int g_cur = -1;         /* node of the last get_path call */
+static char *g_cur_ptr;        /* ... and the string it returned */
+static bool g_used[NNODES];    /* a system call was issued for node k */
+static unsigned g_calls[NNODES];
+static char g_log[NNODES][C06_PATHMAX];
+static bool g_log_bad;         /* unterminated / foreign / changed path */
 
-/* ancestor of every node of depth > d, at depth d (1-based; unique in all
- * shapes of tree.h) */
-static int anc_at_depth(unsigned d)
+/* called by every path-taking stub; returns true if the path is "" */
+static bool env_log_path(const char *p)
 {
-#if SHAPE == 6
-	/* R -> {A -> C, B}: only C is deeper than 1, below A */
-	return d == 1 ? 1 : 3;
-#else
-	/* chains and R -> A -> {B, C}: node index == depth on the spine */
-	return (int)d;
-#endif
-}
+	size_t i;
+	bool term = false, same = true;
+	int k = g_cur;
 
-/* Copy the path out of the heap object (bounded by the longest path the
- * shapes can produce) and evaluate the predicates on the copy. */
-static int env_path_ok(const char *p, bool *empty, bool *prefix_ok)
-{
-	char buf[C06_PATHMAX];
-	size_t i, start = 0, d = 0, k;
-	bool term = false;
-
-	*empty = false;
-	*prefix_ok = true;
+	++g_nsys;
+	if (k < 0 || p != g_cur_ptr) {
+		g_log_bad = true;
+		return false;
+	}
 	for (i = 0; i < C06_PATHMAX; ++i) {
-		buf[i] = p[i];
+		if (g_used[k] && g_log[k][i] != p[i])
+			same = false;
+		g_log[k][i] = p[i];
 		if (p[i] == '\0') {
 			term = true;
 			break;
 		}
 	}
-	if (!term)
-		return 0;
-	if (buf[0] == '\0') {
-		*empty = true;
-		return 0;
-	}
-	if (!spec_confined(buf))
-		return 0;
-
-	/* every proper prefix = path of the ancestor at that depth, which
-	 * must be a directory node */
-	for (i = 0; buf[i] != '\0'; ++i) {
-		if (buf[i] != '/')
-			continue;
-		++d;
-		if (d + 1 > SHAPE_DEPTH) {
-			*prefix_ok = false;
-			break;
-		}
-		{
-			/* typed access only: a pointer into g_nodes[] with a
-			 * symbolic element index and a symbolic offset reads
-			 * garbage in cbmc 6.11 (flexible array member inside
-			 * the wrapper) */
-			int a = anc_at_depth((unsigned)d);
-
-			if (!S_ISDIR(g_inodes[a].i.base.mode))
-				*prefix_ok = false;
-			for (k = 0; k < i - start; ++k) {
-				if (*(const sqfs_u8 *)&buf[start + k] !=
-				    g_nodes[a].name[k])
-					*prefix_ok = false;
-			}
-			if (g_nodes[a].name[i - start] != '\0')
-				*prefix_ok = false;
-		}
-		start = i + 1;
-	}
-	if (d + 1 > g_max_depth)
-		g_max_depth = (unsigned)(d + 1);
-	return 1;
+	if (!term || !same)
+		g_log_bad = true;
+	g_used[k] = true;
+	g_calls[k] += 1;
+	return p[0] == '\0';
 }
 
-#define ENV_CHECK_PATH(p, pre_name, empty_var)                                 \
+/* the path the property allows for node k: names of the chain below the
+ * root, joined by '/', all acceptable, all proper ancestors directories */
+static bool env_node_path_ok(int k)
+{
+	char want[C06_PATHMAX];
+	int chain[SHAPE_DEPTH + 1];
+	int n = 0, j, a;
+	size_t o = 0, i;
+	bool ok = true;
+
+	if (k == 0) {
+		/* the root itself: only the refused empty path */
+		return g_log[0][0] == '\0' &&
+			!S_ISDIR(g_inodes[0].i.base.mode);
+	}
+	for (a = k; a > 0; a = g_parent[a])
+		chain[n++] = a;
+	for (j = n - 1; j >= 0; --j) {
+		a = chain[j];
+		if (!spec_component_ok((const char *)g_nodes[a].name))
+			ok = false;
+		if (j > 0 && !S_ISDIR(g_inodes[a].i.base.mode))
+			ok = false;
+		if (j < n - 1)
+			want[o++] = '/';
+		for (i = 0; g_nodes[a].name[i] != '\0'; ++i)
+			*(sqfs_u8 *)&want[o++] = g_nodes[a].name[i];
+	}
+	want[o] = '\0';
+	for (i = 0; i < C06_PATHMAX; ++i) {
+		if (g_log[k][i] != want[i])
+			ok = false;
+		if (want[i] == '\0')
+			break;
+	}
+	return ok;
+}
+
+/* evaluate the contract for everything that was logged */
+#define ENV_CHECK_LOG(pre_name)                                                \
 	do {                                                                   \
-		bool pfx_;                                                     \
-		int ok_ = env_path_ok((p), &(empty_var), &pfx_);               \
-		++g_nsys;                                                      \
-		VERIF_ASSERT(ok_ || ((empty_var) &&                            \
-				     !S_ISDIR(g_inodes[0].i.base.mode)),       \
-			     pre_name);                                        \
-		VERIF_ASSERT(!ok_ || pfx_, "C06.prefix_is_dir");               \
+		int k_;                                                        \
+		VERIF_ASSERT(!g_log_bad, pre_name);                            \
+		for (k_ = 0; k_ < NNODES; ++k_) {                              \
+			if (!g_used[k_] || g_log_bad)                          \
+				continue;                                      \
+			VERIF_ASSERT(spec_confined(g_log[k_]) ||               \
+				     (k_ == 0 && g_log[0][0] == '\0' &&        \
+				      !S_ISDIR(g_inodes[0].i.base.mode)),      \
+				     pre_name);                                \
+			VERIF_ASSERT(env_node_path_ok(k_),                     \
+				     "C06.prefix_is_dir");                     \
+		}                                                              \
 	} while (0)
 
 static int env_result(bool must_fail)
